@@ -430,6 +430,10 @@ def run(tier, seed):
                     for nm, w in (("lha_decode_uint32", 4), ("lha_decode_uint16", 2)):
                         if M.match(("call", nm, [("gep", ("load", ("field", HDR, "raw_data", ANY)), [("bind", "o")])]), s, {}) is not None:
                             is4, _ = M.find_fact(("eq", ("inst", fs[1]) if fs[0] == "v" else ANY, 4), fs_)
+                            if is4 is None and vals == {4: True, 2: False}:
+                                # "field size == 4" was just shown to be the same statement as "header_level == 3" (the compiler may have
+                                # rewritten the test that way when the size is a conditional expression)
+                                is4, _ = M.find_fact(("eq", ("load", ("field", HDR, "header_level", ANY)), 3), fs_)
                             widths[w] = is4 is not None
                 rep.check(rid, widths == {4: True, 2: False}, "ext_len is a u32 when fs == 4 and a u16 otherwise, read at raw[offset]", c.where(), "recovered %s" % widths,
                           function=de.cname, obj="len-width")
@@ -739,19 +743,19 @@ def run(tier, seed):
                     ok = any(all((is_const(v) and const_val(v) == 0) if pb not in lp["body"] else M.match(("bin", "add", ("inst", ph.id), 1), v, {}) is not None for v, pb in ph.incoming)
                              for ph in phis)
                     rep.check(rid, ok, "string loop runs over indices 0, 1, 2, ...", "%s:%s" % (hf.file, hdr.term.line()), None, function="fix_msdos_allcaps", obj="index-%d" % lp["header"])
-                # DOS-like OS types only
-                ost = ("load", ("field", HD, "os_type", ANY))
+                # DOS-like OS types only: for each of the 256 values of the OS type byte, is the folding region reachable at all?  (Asked of the
+                # branch conditions themselves - an if-chain, a switch, or the bit-mask test a switch is lowered to - not of their spelling.)
+                from ..exprval import reachable_under
                 DOSLIKE = {0: "unknown", 0x4d: "MS-DOS", 0x61: "Atari", 0x20: "LHARK", 0x32: "OS/2"}
-                cut = set()
-                for c in DOSLIKE:
-                    cut |= F.edges_with_fact(("eq", ost, c))
-                rep.check(rid, bool(cut) and not F.reaches_avoiding(0, dom, cut), "folding is entered only for os_type in %s" % sorted(DOSLIKE.values()), "%s:%s" % (hf.file, hf.blocks[dom].term.line()),
-                          None, function=hf.cname, obj="os-types")
-                others = set()
-                for b in hf.blocks:
-                    for t in b.succs:
-                        for f in F.edge_facts(b.id, t):
-                            if f[0] == "eq" and is_const(f[2]) and M.match(ost, f[1], {}) is not None and hf.dominates(t, dom) and const_val(f[2]) not in DOSLIKE:
-                                others.add(const_val(f[2]))
-                rep.check(rid, not others, "no other os_type value enables folding", hf.file, "also %s" % sorted(others) if others else None, function=hf.cname, obj="os-types-only")
+                os_loads = [i.id for i in hf.insts() if i.op == "load" and M.match(("load", ("field", HD, "os_type", ANY)), ("v", i.id), {}) is not None]
+                rep.check(rid, bool(os_loads), "the OS type is read in lha_file_header_read", hf.file, None, function=hf.cname, obj="os-type-read")
+                enabled = set()
+                for c in range(256):
+                    if reachable_under(hf, {i: c for i in os_loads}, dom):
+                        enabled.add(c)
+                rep.check(rid, enabled == set(DOSLIKE), "folding is entered exactly for os_type in %s (all 256 values evaluated)" % sorted(DOSLIKE.values()),
+                          "%s:%s" % (hf.file, hf.blocks[dom].term.line()),
+                          None if enabled == set(DOSLIKE) else "enabled for %s, not enabled for %s" % (sorted("0x%02x" % x for x in enabled - set(DOSLIKE))[:8],
+                                                                                                     sorted("0x%02x" % x for x in set(DOSLIKE) - enabled)),
+                          function=hf.cname, obj="os-types")
     return rep.finish(seed)
